@@ -1,9 +1,10 @@
 #!/bin/sh
 # Builds the symbolic engine and driver from files on disk only (offline).
 set -e
-cd /verif/engine
+ROOT="$(cd "$(dirname "$0")" && pwd)"
+cd "$ROOT/engine"
 export GOFLAGS=-mod=mod GOPROXY=off GOSUMDB=off GOTOOLCHAIN=local CGO_ENABLED=0
-mkdir -p /verif/bin /verif/.work /verif/evidence
-go build -o /verif/bin/vcheck ./cmd/vcheck
-cp /repo/go.sum /verif/harness/go.sum 2>/dev/null || true
+mkdir -p "$ROOT/bin" "$ROOT/.work" "$ROOT/evidence"
+go build -o "$ROOT/bin/vcheck" ./cmd/vcheck
+cp /repo/go.sum "$ROOT/harness/go.sum" 2>/dev/null || true
 echo "setup ok"
